@@ -256,10 +256,10 @@ pub fn braking_points(sim: &SpeedLimitTrainSim) -> (Vec<[f64; 3]>, usize) {
     let v = serde_json::to_value(&sim.braking_points).expect("bp to_value");
     let f = |x: &Value| x.as_f64().unwrap_or(f64::NAN);
     let pts = v["points"].as_array().expect("points").iter().map(|p| [f(&p["offset"]), f(&p["speed_limit"]), f(&p["speed_target"])]).collect();
-    (pts, v["idx_curr"].as_u64().expect("idx_curr") as usize)
+    (pts, v["idx_curr"].as_u64().expect("the serialised BrakingPoints no longer carry idx_curr (the braking cursor): the state of a SpeedLimitTrainSim cannot be observed or resumed after save/load") as usize)
 }
 pub fn braking_idx(sim: &SpeedLimitTrainSim) -> usize {
-    serde_json::to_value(&sim.braking_points).expect("bp")["idx_curr"].as_u64().expect("idx_curr") as usize
+    serde_json::to_value(&sim.braking_points).expect("bp")["idx_curr"].as_u64().expect("the serialised BrakingPoints no longer carry idx_curr (the braking cursor): the state of a SpeedLimitTrainSim cannot be observed or resumed after save/load") as usize
 }
 
 // ---------------------------------------------------------------- Coq printers
